@@ -369,9 +369,19 @@ def first_run_seed():
 
 
 def scratch_dir(prop):
-    d = os.path.join(BUILD_ROOT, "work", prop)
+    # one per process: two checks of the same property may run at once (a sensitivity run against a scratch
+    # worktree next to a run on /repo); directories of processes that are gone are removed
+    root = os.path.join(BUILD_ROOT, "work")
+    os.makedirs(root, exist_ok=True)
+    for e in os.listdir(root):
+        m = re.match(r"^(C\d\d)-(\d+)$", e)
+        if m and not os.path.exists("/proc/%s" % m.group(2)):
+            shutil.rmtree(os.path.join(root, e), ignore_errors=True)
+    d = os.path.join(root, "%s-%d" % (prop, os.getpid()))
     shutil.rmtree(d, ignore_errors=True)
     os.makedirs(d)
+    import atexit
+    atexit.register(lambda: shutil.rmtree(d, ignore_errors=True))
     return d
 
 
